@@ -17,9 +17,10 @@ RSUM = z3.Function("RSUM", z3.ArraySort(INT, REAL), INT, REAL)
 
 def cnt_def(arr):
     c, i = z3.Ints("cnt_c cnt_i")
-    return z3.ForAll([c, i], z3.And(CNT(arr, c, 0) == 0,
-                                    z3.Implies(i >= 0, CNT(arr, c, i + 1) == CNT(arr, c, i) + z3.If(arr[i] == c, 1, 0))),
-                     patterns=[CNT(arr, c, i + 1), z3.MultiPattern(CNT(arr, c, i), z3.Select(arr, i))])
+    return z3.And(
+        z3.ForAll([c], CNT(arr, c, 0) == 0, patterns=[CNT(arr, c, 0)]),
+        z3.ForAll([c, i], z3.Implies(i >= 0, CNT(arr, c, i + 1) == CNT(arr, c, i) + z3.If(arr[i] == c, 1, 0)),
+                  patterns=[CNT(arr, c, i + 1), z3.MultiPattern(CNT(arr, c, i), z3.Select(arr, i))]))
 
 
 # ---------------------------------------------------------------- assumed numpy contracts (external contract table)
@@ -99,6 +100,14 @@ def np_sum(ex, st, args, kwargs, node):
     raise Unsupported("np.sum form")
 
 
+def all_present(labels, K):
+    """every class 0..K-1 occurs (the trigger only tells the instantiation engine when the clause is of interest:
+    when class c is counted)"""
+    n = length(labels)
+    return forall(0, K, lambda c: exists(0, n, lambda t: eq(labels[t], c)),
+                  pats=(lambda c: [CNT(labels.arr, c, lift(n, INT))]) if MODE.kind == "sym" else None)
+
+
 @external("numpy.unique")
 def np_unique(ex, st, args, kwargs, node):
     v = args[0]
@@ -115,7 +124,7 @@ def np_unique(ex, st, args, kwargs, node):
     # when the values are exactly 0 .. K-1 (all present) the sorted distinct values are 0 .. K-1 themselves
     K = MAXP1(v.arr, lift(v.length, INT))
     st.assume(implies(conj(forall(0, v.length, lambda t: conj(le(0, v[t]), lt(v[t], K))),
-                           forall(0, K, lambda c: exists(0, v.length, lambda t: eq(v[t], c)))),
+                           all_present(v, K)),
                       conj(eq(n, K), forall(0, n, lambda j: eq(z3.Select(vals, j), j)))))
     return (SList(vals, n, "int"), SList(cnts, n, "int"))
 
@@ -128,7 +137,7 @@ def labels_ok(labels, preds, K):
     return [("lengths", conj(eq(length(preds), n), ge(n, 1))),
             ("labels_in_range", forall(0, n, lambda t: conj(le(0, labels[t]), lt(labels[t], K)))),
             ("preds_in_range", forall(0, n, lambda t: conj(le(0, preds[t]), lt(preds[t], K)))),
-            ("every_class_present", forall(0, K, lambda c: exists(0, n, lambda t: eq(labels[t], c)))),
+            ("every_class_present", all_present(labels, K)),
             ("K", ge(K, 1))]
 
 
@@ -158,9 +167,11 @@ PAIR = z3.Function("PAIRCNT", AI, AI, INT, INT, INT, INT)     # PAIRCNT(lab, prd
 
 def pair_def(lab, prd):
     a, b, i = z3.Ints("pc_a pc_b pc_i")
-    return z3.ForAll([a, b, i], z3.And(PAIR(lab, prd, a, b, 0) == 0, z3.Implies(
-        i >= 0, PAIR(lab, prd, a, b, i + 1) == PAIR(lab, prd, a, b, i) + z3.If(z3.And(lab[i] == a, prd[i] == b), 1, 0))),
-        patterns=[PAIR(lab, prd, a, b, i + 1), z3.MultiPattern(PAIR(lab, prd, a, b, i), z3.Select(lab, i))])
+    return z3.And(
+        z3.ForAll([a, b], PAIR(lab, prd, a, b, 0) == 0, patterns=[PAIR(lab, prd, a, b, 0)]),
+        z3.ForAll([a, b, i], z3.Implies(
+            i >= 0, PAIR(lab, prd, a, b, i + 1) == PAIR(lab, prd, a, b, i) + z3.If(z3.And(lab[i] == a, prd[i] == b), 1, 0)),
+            patterns=[PAIR(lab, prd, a, b, i + 1), z3.MultiPattern(PAIR(lab, prd, a, b, i), z3.Select(lab, i))]))
 
 
 def cm_requires(v):
@@ -193,14 +204,15 @@ FNc = z3.Function("FNCNT", AI, AI, INT, INT, INT)     # FNCNT(lab, prd, c, i) = 
 
 def err_defs(lab, prd):
     c, i = z3.Ints("ec_c ec_i")
-    return z3.ForAll([c, i], z3.And(
-        FPc(lab, prd, c, 0) == 0, FNc(lab, prd, c, 0) == 0,
-        z3.Implies(i >= 0, z3.And(
+    return z3.And(
+        z3.ForAll([c], FPc(lab, prd, c, 0) == 0, patterns=[FPc(lab, prd, c, 0)]),
+        z3.ForAll([c], FNc(lab, prd, c, 0) == 0, patterns=[FNc(lab, prd, c, 0)]),
+        z3.ForAll([c, i], z3.Implies(i >= 0, z3.And(
             FPc(lab, prd, c, i + 1) == FPc(lab, prd, c, i) + z3.If(z3.And(prd[i] == c, lab[i] != c), 1, 0),
-            FNc(lab, prd, c, i + 1) == FNc(lab, prd, c, i) + z3.If(z3.And(lab[i] == c, prd[i] != c), 1, 0)))),
+            FNc(lab, prd, c, i + 1) == FNc(lab, prd, c, i) + z3.If(z3.And(lab[i] == c, prd[i] != c), 1, 0))),
         patterns=[FPc(lab, prd, c, i + 1), FNc(lab, prd, c, i + 1),
                   z3.MultiPattern(FPc(lab, prd, c, i), z3.Select(lab, i)),
-                  z3.MultiPattern(FNc(lab, prd, c, i), z3.Select(lab, i))])
+                  z3.MultiPattern(FNc(lab, prd, c, i), z3.Select(lab, i))]))
 
 
 def acc_summand(v, c):
